@@ -93,8 +93,15 @@ def isMark : Obs → Bool | .misc 50 _ => true | _ => false
 def wroteAfterAppClose (obs : List Obs) : Bool :=
   (obs.dropWhile (fun o => !isMark o)).any Obs.isW
 
+/-- "the client observes the connection being shut after the pending response bytes": once the
+    application has closed the HTTP socket, the library has closed the transport (`holds` then demands the
+    shutdown to be observed as soon as every written byte is acknowledged) -/
+def appCloseShuts (obs : List Obs) : Bool :=
+  !obs.any isMark || Obs.countP Obs.isTc obs == 1
+
 /-- the predicate the driver evaluates on scenarios carrying `mark`s -/
-def holdsMarked (sc : Scenario) (obs : List Obs) : Bool := holdsStrict sc obs && !wroteAfterAppClose obs
+def holdsMarked (sc : Scenario) (obs : List Obs) : Bool :=
+  holdsStrict sc obs && !wroteAfterAppClose obs && appCloseShuts obs
 
 /-! ### the definitions above and the ones the lemmas are stated with coincide -/
 
